@@ -84,6 +84,12 @@ def _tmp_worktree(interrupt):
             P.cover("tmp_worktree.no_add")
             return
         add = adds[0]
+        # the git axioms of the trusted base speak about `worktree add -b <new branch> <path> <ref>`: git then refuses to touch a branch that already
+        # exists (rc != 0, nothing changed).  -B / --force / -f would reset or reuse the user's branch, which the clean-up then deletes.
+        shape_ok = len(add) == 9 and add[5] == "-b" and not any(isinstance(x, str) and x in ("-B", "-f", "--force", "--force-create", "--detach", "--orphan") for x in add)
+        P.prove("worktree_is_added_on_a_new_branch_that_git_refuses_to_overwrite", shape_ok, argv=str([x if isinstance(x, str) else "<arg>" for x in add]))
+        if not shape_ok:
+            return
         branch, location = add[6], add[7]
         after_add = cmds[cmds.index(add) + 1:]
         ok = add_rc.z == 0
